@@ -77,3 +77,73 @@ Lemma case_reads_are_the_identity_attributes :
   forallb case_ok gen_case_reads = true /\
   forallb (fun e => existsb (fun c => String.eqb (fst c) (fst e)) gen_case_reads) reads_spec = true.
 Proof. split; vm_compute; reflexivity. Qed.
+
+(* ---- what the relation call sites pass to the relations (gen_relation_args: every argument with its local definitions
+   substituted). The verdict of a relation filter is the xtypes relation OF THE TYPES go/types RECORDED for the captures
+   (`params.typeofNode(<the capture's node>)`, which is types.Unalias of Types.TypeOf and nothing else) and of the interface /
+   method / pattern the filter was built with at load time: nothing is applied in between -- no types.Default, no Underlying()
+   except where the DSL says Underlying(), no second lookup. The same for the dsl/types natives: they relate exactly the two
+   values popped from the stack, in the order they were pushed; ctx.Type / Var.Type push the recorded type of the capture. *)
+Definition rows_of (fn callee : string) : list (list string) :=
+  map snd (filter (fun r => String.eqb (snd (fst (fst r))) fn && String.eqb (snd (fst r)) callee) gen_relation_args).
+
+Definition recorded (node : string) : string := "params.typeofNode(" ++ node ++ ")".
+Definition capture (v : string) : string := "params.subNode(" ++ v ++ ")".
+Definition capture_expr (v : string) : string := "params.subExpr(" ++ v ++ ")".
+
+Lemma identical_to_relates_the_recorded_types :
+  rows_of "makeTypesIdenticalFilter" "xtypes.Identical" = [[recorded (capture "lhsVarname"); recorded (capture "rhsVarname")]].
+Proof. vm_compute. reflexivity. Qed.
+
+Lemma implements_relates_the_recorded_type_and_the_loaded_interface :
+  rows_of "makeTypeImplementsFilter" "xtypes.Implements" = [[recorded "x"; "iface"]; [recorded (capture_expr "varname"); "iface"]].
+Proof. vm_compute. reflexivity. Qed.
+
+Lemma has_method_asks_the_recorded_type :
+  rows_of "makeTypeHasMethodFilter" "typeHasMethod" = [[recorded (capture "varname"); "fn"]] /\
+  rows_of "typeHasMethod" "types.LookupFieldOrMethod" = [["typ"; "true"; "fn.Pkg()"; "fn.Name()"]] /\
+  rows_of "typeHasMethod" "xtypes.Identical" =
+    [["fn.Type()"; "types.LookupFieldOrMethod(typ, true, fn.Pkg(), fn.Name()).(*types.Func).Type()"]].
+Proof. repeat split; vm_compute; reflexivity. Qed.
+
+Lemma type_is_matches_the_recorded_type :
+  rows_of "makeTypeIsFilter" "Pattern.MatchIdentical" =
+    [["params.typematchState"; recorded "x" ++ ".Underlying()"]; ["params.typematchState"; recorded (capture "varname") ++ ".Underlying()"];
+     ["params.typematchState"; recorded "x"]; ["params.typematchState"; recorded (capture "varname")]].
+Proof. vm_compute. reflexivity. Qed.
+
+Lemma natives_relate_the_two_popped_values :
+  rows_of "dslTypesPackage.Implements" "xtypes.Implements" = [["pop2:stack.Pop().(types.Type)"; "pop1:stack.Pop().(*types.Interface)"]] /\
+  rows_of "dslTypesPackage.Identical" "xtypes.Identical" = [["pop2:stack.Pop().(types.Type)"; "pop1:stack.Pop().(types.Type)"]] /\
+  rows_of "dslTypesPackage.Implements" "stack.Push" =
+    [["xtypes.Implements(pop2:stack.Pop().(types.Type), pop1:stack.Pop().(*types.Interface))"]] /\
+  rows_of "dslTypesPackage.Identical" "stack.Push" = [["xtypes.Identical(pop2:stack.Pop().(types.Type), pop1:stack.Pop().(types.Type))"]] /\
+  rows_of "dslVarFilterContext.Type" "stack.Push" =
+    [["pop1:stack.Pop().(*filterParams).typeofNode(pop1:stack.Pop().(*filterParams).subExpr(pop1:stack.Pop().(*filterParams).varname))"]] /\
+  rows_of "dslDoVar.Type" "stack.Push" =
+    [["pop1:stack.Pop().(*dslDoVarRepr).params.typeofNode(pop1:stack.Pop().(*dslDoVarRepr).params.subNode(pop1:stack.Pop().(*dslDoVarRepr).name))"]].
+Proof. repeat split; vm_compute; reflexivity. Qed.
+
+Definition sources_of (fn : string) : list string :=
+  map snd (filter (fun r => String.eqb (fst r) fn) gen_operand_sources).
+
+Lemma typeof_node_is_the_recorded_type :
+  sources_of "filterParams.typeofNode" = ["types.Unalias(params.ctx.Types.TypeOf(<e: assigned more than once>))"; "invalidType"].
+Proof. vm_compute. reflexivity. Qed.
+
+(* ---- which package a fully-qualified name is looked up in (FindType: Implements / HasMethod arguments at load time,
+   ctx.GetType / ctx.GetInterface at run time): the text before the last dot is the import path; the object comes from the
+   dependency of the current package whose path is EQUAL to it (findDependency accepts `pkg.Path() == path` and nothing else),
+   else from what the importer returns for exactly that path *)
+Definition fqn_path : string := "fqn[:strings.LastIndexByte(fqn, '.')]".
+Definition fqn_name : string := "fqn[strings.LastIndexByte(fqn, '.') + 1:]".
+
+Lemma find_type_resolves_by_exact_path :
+  rows_of "engineState.FindType" "findDependency" = [["currentPkg"; fqn_path]] /\
+  rows_of "engineState.FindType" "lookupType" =
+    [["findDependency(currentPkg, " ++ fqn_path ++ ")"; fqn_path; fqn_name]; ["importer.Import(" ++ fqn_path ++ ")"; fqn_path; fqn_name]] /\
+  rows_of "findDependency" "findDependency" = [["imported"; "path"]] /\
+  sources_of "findDependency" = ["pkg"; "findDependency(imported, path)"; "nil"] /\
+  sources_of "findDependency:if" =
+    ["pkg.Path() == path"; "findDependency(imported, path) != nil && findDependency(imported, path).Complete()"].
+Proof. repeat split; vm_compute; reflexivity. Qed.
